@@ -4,7 +4,7 @@
 set -u
 patch="$(realpath "$1")"; id="$2"; tier="${3:-quick}"
 wt="$(mktemp -d /tmp/gxv-mut-XXXXXX)"
-git -C /repo worktree add --detach "$wt" HEAD -q || exit 2
+git -C /repo worktree add --detach "$wt" "${GXV_BASE_REV:-HEAD}" -q || exit 2
 ( cd "$wt" && git apply "$patch" ) || { echo "PATCH DOES NOT APPLY"; git -C /repo worktree remove --force "$wt"; exit 2; }
 cd "$(dirname "$0")/.." || exit 2
 GXV_REPLAY_DIR="${GXV_REPLAY_DIR:-/tmp/gxv-mutant-replays}" GXV_REPO="$wt" GXV_SRC="$wt/src" ./check "$id" "$tier" --no-evidence 2>&1 | cut -c1-600 | tail -${TAILN:-12}
